@@ -120,3 +120,46 @@ package capnp
 //@   assert before "return s, addr, nil" zl: forall(0, len(space), func(j int) bool { return space[j] == 0 })
 //@   assert before "return s, addr, nil" zr: sameSlice(space, s.data[int(addr):])
 //@   assert before "return s, addr, nil" zq: forall(int(addr), len(s.data), func(j int) bool { return s.data[j] == 0 })
+
+// ---------------------------------------------------------------- the standard arenas against the Arena contract
+
+// nextAlloc: how much to grow by - at least the (padded) request, whole words, at most a segment
+//@ func maxAllocSize -> r
+//@   props C05
+//@   ensures r == maxSegmentSize
+
+//@ func nextAlloc -> r, err
+//@   props C05
+//@   requires curr >= 0 && max >= 0
+//@   ensures implies(err == nil && req == 0, r == 0)
+//@   ensures enough: implies(err == nil && req != 0, M(r) >= M(req) && r&7 == 0 && M(r) <= mMaxSeg() + 1024)
+//@   loop 0 "0 < new && new < want"
+//@     invariant curr >= 512 && want >= 1024 && want > curr && want-curr <= 1<<32 && int64(req) <= want-curr && int64(padreq) == want-curr && padreq&7 == 0
+
+// SingleSegment's Allocate satisfies what Arena.Allocate is assumed to do: room for sz more bytes,
+// a word multiple within the segment limit, the loaded segment's bytes preserved, no existing array
+// written.  (Arena invariant required: the buffer is within the segment limit.)
+//@ func singleSegmentArena.Allocate -> id, data, err
+//@   props C05
+//@   requires M(len(*ssa)) <= mMaxSeg() && implies(segs[0] != nil, M(len(segs[0].data)) <= mMaxSeg())
+//@   ensures implies(err == nil, id == 0 && M(cap(data))-M(len(data)) >= M(sz) && M(len(data)) <= mMaxSeg() && len(data)&7 == 0)
+//@   ensures kept: implies(err == nil && segs[0] != nil, len(data) == len(segs[0].data) &&
+//@     forall(0, len(data), func(j int) bool { return data[j] == segs[0].data[j] }))
+//@   ensures bytesUnchanged()
+
+// MultiSegment's Allocate likewise.  (Arena invariant required: every segment it holds or has
+// handed out is a word multiple within the segment limit - true of demuxed streams and of
+// segments grown by alloc; MultiSegment does not check it itself, SingleSegment does.)
+//@ func multiSegmentArena.Allocate -> id, data, err
+//@   props C05
+//@   requires forall(0, len(*msa), func(k int) bool { return len((*msa)[k])&7 == 0 && M(len((*msa)[k])) <= mMaxSeg() })
+//@   requires forall(0, len(*msa), func(k int) bool { return implies(segs[SegmentID(k)] != nil, len(segs[SegmentID(k)].data)&7 == 0 && M(len(segs[SegmentID(k)].data)) <= mMaxSeg()) })
+//@   requires sz != 0
+//@   -- the message has no segment the arena does not know of
+//@   requires segs[SegmentID(len(*msa))] == nil
+//@   ensures implies(err == nil, M(cap(data))-M(len(data)) >= M(sz) && M(len(data)) <= mMaxSeg() && len(data)&7 == 0)
+//@   ensures kept: implies(err == nil && segs[id] != nil, len(data) == len(segs[id].data) &&
+//@     forall(0, len(data), func(j int) bool { return data[j] == segs[id].data[j] }))
+//@   ensures bytesUnchanged()
+//@   loop 0 "range *msa"
+//@     invariant total >= 0
